@@ -149,6 +149,8 @@ def gen_case(ctx, fmt=None):
         case['im'] = (case['want'] + case['T']) % 3 == 0
         case['multi'] = (case['want'] * 3 + case['T']) % 4 == 2
         case['ens_name'] = 'ens7' if (case['want'] + case['T']) % 4 == 1 else None
+        if fmt != 'sfcf_a' and rng.random() < 0.25:
+            case['multi_keys'] = [rng.choice(['fA_wf', 'f1_wf2']), rng.random() < 0.4]
         if fmt == 'sfcf_a':
             # the appended-layout reader only finds the FIRST [correlator] block of a file (it raises
             # "Did not find pattern" for later ones: an exception, outside this property) - request those
@@ -368,6 +370,23 @@ def read_and_expect(ctx, case, root, info):
             if case.get('ens_name'):
                 k2['ens_name'] = case['ens_name']
                 ens = case['ens_name']
+            if case.get('multi_keys'):
+                # several keys of ONE correlator name in one call, listed in file order or not
+                mk = case['multi_keys']
+                if mk[0] == 'fA_wf':
+                    wfl, wf2l, nm_, bb_ = ([0, 1] if mk[1] else [1, 0]), [0], 'f_A', False
+                else:
+                    wfl, wf2l, nm_, bb_ = [0], ([0, 1] if mk[1] else [1, 0]), 'f_1', True
+                ret = sfin.read_sfcf_multi(os.path.join(root, 'data'), 'data', [nm_], quarks_list=['lquark lquark'], corr_type_list=['bb' if bb_ else 'bi'],
+                                           noffset_list=[0], wf_list=wfl, wf2_list=wf2l, version=ver, silent=True, **k2)
+                for w_ in wfl:
+                    for w2_ in wf2l:
+                        res = ret[nm_]['lquark lquark']['0'][str(w_)][str(w2_)]
+                        e = info['exp'][(nm_, w_, w2_)]
+                        for t in range(1 if bb_ else case['T']):
+                            exp = {'%s|r%d' % (ens, r): {c: e[r][c][t][part] for c in want[r]} for r in rs}
+                            out.append(('sfcf multi-keys %s %s wf=%d wf2=%d t=%d%s' % (lay, nm_, w_, w2_, t, ' im' if part else ''), tab(res[t]), exp))
+                return out
             if case.get('multi'):
                 # several correlators in one call, requested in another order than they are stored in the files
                 ret = sfin.read_sfcf_multi(os.path.join(root, 'data'), 'data', ['f_1', 'f_A'], quarks_list=['lquark lquark'], corr_type_list=['bb', 'bi'],
